@@ -93,12 +93,15 @@ def run(chk):
                             variant=vn)
                 continue
             ok, detail = False, "no comparison of the tag before the next read"
-            for x in seq[freads[0] + 1:nxt]:
+            for xi in range(freads[0] + 1, nxt):
+                x = seq[xi]
                 if x["e"] == "if" and sym.contains(x["cond"], cell):
                     c = x["cond"]
                     if c[0] == "op" and c[1] in ("!=", "==") and (c[2] == cell or c[3] == cell):
                         other = c[3] if c[2] == cell else c[2]
-                        fatal = (x.get("then_status") == "exit") if c[1] == "!=" else (x.get("else_status") == "exit")
+                        # the mismatch path ends the process: the `!=` branch exits, or the `==` branch returns and the code after the
+                        # test runs into a no-return call (a tag-reading helper written `if (tag == expected) return; die(...)`)
+                        fatal = ioseq.mismatch_is_fatal(seq, xi)
                         if other[0] == "fld":
                             from rules.c05 import const_member
                             cmv = const_member(v, other)
